@@ -310,6 +310,7 @@ func childExplore(t *testing.T, p *Property, job *Job) {
 		sum.Net.BytesDelivered += res.Net.BytesDelivered
 		sum.Net.Stalls += res.Net.Stalls
 		sum.Net.PartialWrites += res.Net.PartialWrites
+		sum.Net.Freezes += res.Net.Freezes
 		if res.LockPairs > sum.LockPairs {
 			sum.LockPairs = res.LockPairs
 		}
